@@ -661,7 +661,7 @@ func TestVerif(t *testing.T) {
 	}
 	r.Set("exhaustive_what", "per recorded execution: every mutating file-system call of the queue (before), every write (middle), each also with not-yet-fsynced data dropped, plus the end state; each spool state is paired with every harness-log prefix it can coexist with (consistent cuts between the surrounding calls); every resulting crash state is restored and recovered by a fresh queue (states identical in spool bytes and judged facts are recovered once); recursively for every crash state inside recovery runs (depth 2)")
 
-	nRandom := r.N(50, 2600)
+	nRandom := r.N(120, 2600)
 	total := nBaseShapes + nRandom
 	for i := 0; i < total; i++ {
 		name := fmt.Sprintf("scenario-%d", i)
